@@ -946,6 +946,13 @@ def tree_self_validate(out, TC, mir, ent, exe, n, seed):
             c1 = rnd.randint(0, len(d))
             o["chunks"] = [c1, len(d) - c1]
         cases.append((d, o))
+    # the script environment (a script detaches the n-th created element at the k-th script pause) and the form-owner argument
+    for d in ("<p><b>x</p><table><tr><td><script>s</script></td></tr></table>y<i>", "<div><form></div><script>s</script><input>", "<b><template><script>s</script></template>x",
+              "<a><table><script>s</script><a>", "<select><script>s</script><option>x"):
+        for ei in range(5):
+            cases.append((d, {"detach_plan": [[1, ei]]}))
+    for d in ("<template><b>x</b></template><input>", "<input><form><input>", "<table><input>"):
+        cases.append((d, {"context": [HTML_NS_, "div"], "form": True, "chunks": [10, len(d) - 10]}))
     units = [{"doc": d, "opts": o} for d, o in cases]
     res = TC.run_units_fn(TR.unit_concrete, units, mir, ent)
     bad = []
@@ -1056,7 +1063,24 @@ def tree_units(prop, tier):
             add("%r chunk boundary after a symbolic start tag, symbolic end tags" % c, [c, "<", N2, ">x", "</", N1, ">", "y"], {"chunks": [L + 4, 400]})
             if not q:
                 add("%r two chunk boundaries" % c, [c, "<", N2, ">x", "</", N1, ">", "<", N1, ">y"], {"chunks": [L, 4, 400]})
-        add("fragment with a form and a script pause", ["<b>", "<script>s</script>", "<", N1, ">x</", N1, ">"], {"context": [HTML_NS_, "div"]})
+        # a script may detach a connected element before the collection runs: formatting element (open, or implicitly closed and
+        # still listed) x scope opener (marker scopes, select, foreign content) x script inside the scope x closers x text
+        fmts = ["<b>", "<p><b>x</p>", "<a href=x>", "<nobr><i>", "<div><u>x</div>"]
+        scopes = [("", ""), ("<table><tr><td>", "</td></tr></table>"), ("<table><caption>", "</caption></table>"), ("<object>", "</object>"), ("<template>", "</template>"),
+                  ("<applet>", "</applet>"), ("<select>", "</select>"), ("<svg><foreignObject>", "</foreignObject></svg>"), ("<form><div>", "</div>"), ("<marquee>", "</marquee>")]
+        for fi, f_ in enumerate(fmts):
+            for si, (op_, cl_) in enumerate(scopes):
+                if q and (fi + si + C.seed()) % 2:
+                    continue
+                add("%r %r script (may detach) then closers, text, start tag" % (f_, op_), [f_, op_, "<script>s</script>", cl_, W1, "<", N1, ">y"], {"script_detach": True}, maxp=3000)
+        for body in ("<form><p>", "<div><form></div>", "<form><table>", "<template><form>"):
+            add("%r script (may detach) then form controls" % body, [body, "<script>s</script>", "<input>", "</", N1, ">", "<button>", W1], {"script_detach": True}, maxp=3000)
+        # the form owner handed to a fragment parse is referenced by nothing else
+        for c in ("<template><b>x</b>", "<table><tr><td>", "<select>", "<p>"):
+            L = len(c)
+            add("fragment with a form owner: %r | rest" % c, [c, "</template><input>", "<", N1, ">", W1], {"context": [HTML_NS_, "div"], "form": True, "chunks": [L, 400]})
+            add("fragment with a form owner: %r script rest" % c, [c, "<script>s</script>", "</template><input><", N1, ">"], {"context": [HTML_NS_, "div"], "form": True})
+        add("fragment with a script pause", ["<b>", "<script>s</script>", "<", N1, ">x</", N1, ">"], {"context": [HTML_NS_, "div"]})
         add("fragment in a template context", ["<td>", "<script>s</script>", "<", N2, ">x</", N1, ">"], {"context": [HTML_NS_, "template"]})
     elif prop == "C04":
         cs = ["", "<table><tr>", "<select>", "<svg>", "<template>", "<b><p>", "<frameset>", "<math><annotation-xml>"]
